@@ -186,16 +186,17 @@ pub struct PublicKey { _o: u8 }
 /// opaque stand-in for crypto::keys::SignatureVerificationError (a unit struct)
 #[verifier::external_body]
 pub struct SignatureVerificationError { _o: u8 }
-/// "signature `sig` (algorithm and value) verifies over `msg` under `key`" (abstract; includes the
-/// algorithm-match prelude of PublicKey::verify)
-pub uninterp spec fn sig_ok(key: PublicKey, msg: Seq<u8>, sig: RpkiSignature) -> bool;
+// `sig_ok(key, msg, sig)`: "signature `sig` (algorithm identifier and value) verifies over `msg` under `key`",
+// including the algorithm-match prelude of PublicKey::verify -- abstract here, DEFINED in unit key_verify
+// (format match && aws-lc primitive), which proves the linked contract
+//@include shared/sig_vocab.v.rs
+impl SignatureAlgorithm for RpkiSignatureAlgorithm { }
 impl PublicKey {
-    /// crypto/keys.rs PublicKey::verify = algorithm check + aws-lc UnparsedPublicKey::verify (assumed:
-    /// Ok exactly when the signature verifies)
-    #[verifier::external_body]
-    pub fn verify(&self, message: &[u8], signature: &RpkiSignature) -> (r: Result<(), SignatureVerificationError>)
-        ensures r is Ok <==> sig_ok(*self, message@, *signature)
-    { unimplemented!() }
+    /// contract link: crypto/keys.rs PublicKey::verify (algorithm check + dispatch to the aws-lc primitive), proved
+    /// in unit key_verify; the requires/ensures text is taken from there
+    //@stub key_verify :: impl PublicKey :: verify
+    pub fn verify<Alg: SignatureAlgorithm>(&self, message: &[u8], signature: &Signature<Alg>) -> (r: Result<(), SignatureVerificationError>)
+    //@end
 }
 
 // ---- x509 / uri / resources: field types of TbsCert that play no role here --------------------
